@@ -195,6 +195,100 @@ fn main() {
         .unwrap();
         written += 1;
     }
+    // chained draws: a transition taken inside a transition (CounterZero raised by entering the target)
+    // makes its own draw; on a G x G grid of (first word, second word) the inner transition must be
+    // taken on its declared share of the second draw whatever the first draw was
+    for (ci, (w1a, w1b, w2)) in [(128u32, 128u32, 128u32), (64, 128, 64), (32, 32, 192), (255, 1, 1)].iter().enumerate() {
+        const G: u32 = 256;
+        let m = chain::probe(*w1a as f32 / G as f32, *w1b as f32 / G as f32, *w2 as f32 / G as f32);
+        let (mut moved, mut taken) = (Vec::new(), Vec::new());
+        for i in 0..G {
+            let (mut mv, mut tk) = (0u32, 0u32);
+            for j in 0..G {
+                match chain::run(&m, i << 24, j << 24) {
+                    2 => tk += 1,
+                    1 => mv += 1,
+                    _ => {}
+                }
+            }
+            moved.push(if mv + tk == G { 1 } else if mv + tk == 0 { 0 } else { 2 });
+            taken.push(tk);
+        }
+        writeln!(f, "{}", json!({"k": "chain", "id": 900000 + ci, "G": G, "w1a": w1a, "w1b": w1b, "w2": w2,
+                                 "moved": moved, "taken": taken, "n": 1, "p": [format!("{}/256", w2)], "targets": [4],
+                                 "count": [0], "none": 0})).unwrap();
+        written += 1;
+    }
     f.flush().unwrap();
     println!("{}", json!({"vectors": written, "draws_each": R}));
+}
+
+mod chain {
+    use enum_map::enum_map;
+    use maybenot::action::{Action, Timer};
+    use maybenot::counter::{Counter, Operation};
+    use maybenot::event::Event;
+    use maybenot::state::{State, Trans};
+    use maybenot::{Framework, Machine, TriggerAction, TriggerEvent};
+    use rand_core::{Error, RngCore};
+    use std::cell::RefCell;
+    use std::collections::VecDeque;
+    use std::rc::Rc;
+    use std::time::Instant;
+
+    #[derive(Clone)]
+    struct Scripted(Rc<RefCell<VecDeque<u32>>>);
+    impl RngCore for Scripted {
+        fn next_u32(&mut self) -> u32 {
+            self.0.borrow_mut().pop_front().unwrap_or(0)
+        }
+        fn next_u64(&mut self) -> u64 {
+            let lo = self.next_u32() as u64;
+            ((self.next_u32() as u64) << 32) | lo
+        }
+        fn fill_bytes(&mut self, dest: &mut [u8]) {
+            for c in dest.chunks_mut(4) {
+                let w = self.next_u32().to_le_bytes();
+                c.copy_from_slice(&w[..c.len()]);
+            }
+        }
+        fn try_fill_bytes(&mut self, dest: &mut [u8]) -> Result<(), Error> {
+            self.fill_bytes(dest);
+            Ok(())
+        }
+    }
+
+    /// 0 -NormalRecv-> 1 (A += 1) -NormalSent-> 2 (pa) | 3 (pb); entering 2 or 3 decrements A to zero;
+    /// CounterZero -> 4 with p2. The states carry distinguishable Cancel actions.
+    pub fn probe(pa: f32, pb: f32, p2: f32) -> Machine {
+        let s0 = State::new(enum_map! { Event::NormalRecv => vec![Trans(1, 1.0)], _ => vec![] });
+        let mut s1 = State::new(enum_map! { Event::NormalSent => vec![Trans(2, pa), Trans(3, pb)], _ => vec![] });
+        s1.counter = (Some(Counter::new(Operation::Increment)), None);
+        let mut s2 = State::new(enum_map! { Event::CounterZero => vec![Trans(4, p2)], _ => vec![] });
+        s2.counter = (Some(Counter::new(Operation::Decrement)), None);
+        s2.action = Some(Action::Cancel { timer: Timer::Action });
+        let mut s3 = State::new(enum_map! { Event::CounterZero => vec![Trans(4, p2)], _ => vec![] });
+        s3.counter = (Some(Counter::new(Operation::Decrement)), None);
+        s3.action = Some(Action::Cancel { timer: Timer::Internal });
+        let mut s4 = State::new(enum_map! { _ => vec![] });
+        s4.action = Some(Action::Cancel { timer: Timer::All });
+        Machine::new(u64::MAX, 0.0, 0, 0.0, vec![s0, s1, s2, s3, s4]).unwrap()
+    }
+
+    /// 0 = not moved, 1 = moved to 2 or 3 only, 2 = the CounterZero transition was taken as well
+    pub fn run(m: &Machine, first: u32, second: u32) -> u32 {
+        let words = Rc::new(RefCell::new(VecDeque::new()));
+        let now = Instant::now();
+        let ms = [m.clone()];
+        let mut f = Framework::new(&ms, 0.0, 0.0, now, Scripted(words.clone())).unwrap();
+        let _ = f.trigger_events(&[TriggerEvent::NormalRecv], now).count();
+        words.borrow_mut().clear();
+        words.borrow_mut().extend([first, second]);
+        let acts: Vec<TriggerAction> = f.trigger_events(&[TriggerEvent::NormalSent], now).cloned().collect();
+        match acts.first() {
+            Some(TriggerAction::Cancel { timer: Timer::All, .. }) => 2,
+            Some(TriggerAction::Cancel { .. }) => 1,
+            _ => 0,
+        }
+    }
 }
